@@ -41,6 +41,9 @@ var c04Master = []masterGene{
 var c04Layouts = []map[string]int{
 	{"B": 1, "I1": 2, "I2": 3, "O": 4, "O2": 4, "H1": 5, "H2": 6},
 	{"B": 1, "I1": 2, "I2": 3, "H1": 4, "H2": 5, "O": 6, "O2": 7},
+	// layout 2: node ids count from 0, and both parents carry the SAME genome id (ids are per-species baby
+	// counters or user-supplied, not identities)
+	{"B": 1, "I1": 0, "I2": 2, "O": 3, "O2": 3, "H1": 4, "H2": 5},
 }
 
 type c04Case struct {
@@ -67,6 +70,9 @@ func c04Parent(id, mask, enPat, traitPat, wOff int) *GenomeSpec {
 
 func c04ParentL(layout, id, mask, enPat, traitPat, wOff int) *GenomeSpec {
 	L := c04Layouts[layout]
+	if layout == 2 {
+		id = 7
+	}
 	act := xorSeed().Nodes[3].Act
 	s := &GenomeSpec{ID: id,
 		Traits: []TraitSpec{{1, params8(0.1 * float64(wOff+1))}, {2, params8(1.5 + float64(wOff))}}}
@@ -111,7 +117,7 @@ func c04ParentL(layout, id, mask, enPat, traitPat, wOff int) *GenomeSpec {
 	all := []nd{{L["B"], network.BiasNeuron}, {L["I1"], network.InputNeuron}, {L["I2"], network.InputNeuron}, {L["O"], network.OutputNeuron}, {L["O2"], network.OutputNeuron},
 		{L["H1"], network.HiddenNeuron}, {L["H2"], network.HiddenNeuron}}
 	seen := map[int]bool{}
-	for id := 1; id <= 7; id++ {
+	for id := 0; id <= 7; id++ {
 		for _, n := range all {
 			if n.id != id || seen[id] {
 				continue
@@ -287,6 +293,11 @@ func c04Enumerate(c *Ctx, bd c04Bounds, oracle func(cs *c04Case, t *gsTransition
 									cs2 := *cs
 									cs2.Layout = 1
 									execs += c04RunCase(c, bd.Prop, &cs2, oracle, nil, "")
+									cases++
+									// third layout: zero-based node ids, parents with equal genome ids
+									cs3 := *cs
+									cs3.Layout = 2
+									execs += c04RunCase(c, bd.Prop, &cs3, oracle, nil, "")
 									cases++
 								}
 							}
@@ -476,7 +487,7 @@ func runC04(c *Ctx) {
 	c.Extra["master_list_k"] = bd.K
 	c04Enumerate(c, bd, c04Oracle(c))
 	c.States = int64(len(c.distinct))
-	c.Rule = fmt.Sprintf("parents = every non-empty well-formed subset of a master list of k=%d innovations over {bias, 2 inputs, output(s), 2 hidden} - in two node layouts: outputs before the hidden nodes, and hidden nodes before two outputs - that contains two innovations for the same link, a forward and a recurrent gene between one node pair and a recurrent self-loop (k >= 6: in the alphabet; below: the gene lists over {#1,#2,#3,#6} containing it are added); all ordered pairs x enabled patterns x trait patterns {mixed, nil, (thorough: uniform)} x fitness orders {<,=,>} x {multipoint, multipoint-avg, single-point} x every choice sequence of the mate call (complete tree when <= 3 (multipoint) / <= 1 (avg) genes match and always for single-point, else all sequences within 3 / 2 deviations of Z, M, H); weights and mutation numbers from the hard-float alphabet. Oracle = the C04 statement clause by clause. states = distinct ordered parent pairs, transitions = mate calls on the real code", bd.K)
+	c.Rule = fmt.Sprintf("parents = every non-empty well-formed subset of a master list of k=%d innovations over {bias, 2 inputs, output(s), 2 hidden} - in three node layouts: outputs before the hidden nodes; hidden nodes before two outputs; node ids counted from 0 with both parents carrying the same genome id - that contains two innovations for the same link, a forward and a recurrent gene between one node pair and a recurrent self-loop (k >= 6: in the alphabet; below: the gene lists over {#1,#2,#3,#6} containing it are added); all ordered pairs x enabled patterns x trait patterns {mixed, nil, (thorough: uniform)} x fitness orders {<,=,>} x {multipoint, multipoint-avg, single-point} x every choice sequence of the mate call (complete tree when <= 3 (multipoint) / <= 1 (avg) genes match and always for single-point, else all sequences within 3 / 2 deviations of Z, M, H); weights and mutation numbers from the hard-float alphabet. Oracle = the C04 statement clause by clause. states = distinct ordered parent pairs, transitions = mate calls on the real code", bd.K)
 	c.Assume("parents share consistent innovation numbering (equal number => equal link); conflicting numbering appears only as two numbers for one link")
 	c.Assume("Go toolchain, go build -overlay, the instrumenter and the accessor file are trusted")
 }
